@@ -265,6 +265,12 @@ def run(ck, sq, Event, histories, replay_obj, quick):
     if not ok2:
         ck.broken.append("state model no longer extracts/compiles: " + out[-300:])
         return
+    # an insert_many whose upsert loop raises (insert_many_badup) is an op of the token model only
+    # (Commit.InsertManyFailed ups [] rest): Model/CrashStore.v has the bind-time overflow for id-less rows only
+    skipped = [h for h in histories if any(st[2][0] == "insert_many_badup" for st in h[2])]
+    if skipped:
+        ck.count("state:histories-with-a-failing-upsert-left-to-the-token-model", len(skipped))
+        histories = [h for h in histories if h not in skipped]
     limit = len(histories) if quick else 170 + 400       # thorough: the corpus and the first 400 random histories
     if len(histories) > limit:
         ck.count("state:histories-not-replayed-in-this-stream", len(histories) - limit)
